@@ -11,6 +11,7 @@ import (
 	"sort"
 	"strings"
 	"sync"
+	"sync/atomic"
 	"time"
 
 	"github.com/lindb/common/pkg/ltoml"
@@ -117,6 +118,24 @@ func kvConcHistory(rec *trace.Recorder, root string, seed int64, h int, sum *tra
 	fam := int(f.ID())
 	levels := opt.Levels
 
+	type preparedFlusher struct {
+		name string
+		fl   kv.Flusher
+	}
+	var extra []preparedFlusher
+	// (in half of the histories: a committer that waits for the lock costs the scheduler one StepWait)
+	if n := rng.Intn(4) - 1; n > 0 {
+		for i := 0; i <= n; i++ {
+			name := "fl"
+			if i > 0 {
+				name = fmt.Sprintf("fl%d", i+1)
+			}
+			w.BindThread(name)
+			extra = append(extra, preparedFlusher{name: name, fl: run.prepareFlusher(f, 1+rng.Intn(2))})
+			w.BindThread("")
+		}
+	}
+
 	sc := sched.New(rng.Int63())
 	sc.StepWait = 300 * time.Millisecond
 	w.Gate = func(label string) {
@@ -177,13 +196,27 @@ func kvConcHistory(rec *trace.Recorder, root string, seed int64, h int, sum *tra
 			}
 		})
 	}
-	nfl := 1 + rng.Intn(2)
-	start("fl", func() {
-		for i := 0; i < nfl; i++ {
-			run.flushQuiet("10", 1+rng.Intn(2))
-			sc.Yield("fl", "next")
-		}
-	})
+	if len(extra) == 0 {
+		nfl := 1 + rng.Intn(2)
+		start("fl", func() {
+			for i := 0; i < nfl; i++ {
+				run.flushQuiet("10", 1+rng.Intn(2))
+				sc.Yield("fl", "next")
+			}
+		})
+	}
+	// several committers on the same family (two or three flushers, each with its own table, beside the compaction), so
+	// that commits overlap: a committer reaches CommitFamilyEditLog while another one is parked inside it, at the
+	// manifest append.  The scheduled part of these flushers is the commit only: their tables were started above, one
+	// thread at a time, and stay pending outputs until then.  (File numbers are allocated under the version-set lock
+	// but announced after it: two flushers that wait for that lock together, or a flusher beside the compaction, would
+	// announce their numbers in either order.  Here the compaction is the only thread that allocates.)
+	for _, x := range extra {
+		x := x
+		start(x.name, func() {
+			run.commitPrepared(x.name, f, x.fl)
+		})
+	}
 	start("cp", func() {
 		// the compaction job runs on a goroutine lindb starts; it takes the announced name
 		w.Announce("bg")
@@ -427,6 +460,248 @@ func (r *kvRun) flushQuiet(name string, nkeys int) {
 	r.rec.Emit("WriterDone", trace.F{"fam": int(f.ID()), "nums": r.w.TakeAllocs(r.w.Thread())})
 }
 
+// prepareFlusher starts a flush on the calling thread: the table is allocated, created and filled, not yet closed.
+func (r *kvRun) prepareFlusher(f kv.Family, nkeys int) kv.Flusher {
+	fl := f.NewFlusher()
+	keys := r.rng.Perm(kvKeyUniverse)[:nkeys]
+	sort.Ints(keys)
+	for _, k := range keys {
+		r.atom++
+		if err := fl.Add(uint32(k), kvwrap.EncodeAtoms([]uint32{r.atom})); err != nil {
+			r.rec.Emit("Error", trace.F{"op": "Add", "err": err.Error()})
+		}
+	}
+	return fl
+}
+
+// commitPrepared is the second half: table close, commit of the edit log, the output stops being pending.
+// A panic of the code under test is an observation (the trace specification explains no Error event).
+func (r *kvRun) commitPrepared(thread string, f kv.Family, fl kv.Flusher) {
+	func() {
+		defer func() {
+			if p := recover(); p != nil {
+				r.rec.Emit("Error", trace.F{"op": "Commit", "err": fmt.Sprintf("panic: %v", p)})
+			}
+		}()
+		if err := fl.Commit(); err != nil {
+			r.rec.Emit("Error", trace.F{"op": "Commit", "err": err.Error()})
+		}
+		fl.Release()
+	}()
+	r.rec.Emit("WriterDone", trace.F{"fam": int(f.ID()), "nums": r.w.TakeAllocs(thread)})
+}
+
+// kvOverlappingCommits: commits of one family that overlap.  Committer A is parked at its manifest append, i.e.
+// INSIDE CommitFamilyEditLog with the version-set lock held; the other committers (own tables, built before) are
+// started one by one and run until they wait for that lock; then A is released, and of the waiting committers the
+// one that got the lock is parked at its manifest append until every other one waits for the lock again, and so on.
+// Every commit returned success, so afterwards a NEW snapshot shows every one of them (the model installs the
+// commits in the order of their ManifestAppend events, the linearization point inside the lock), and the obsolete
+// file cleanup removes none of their tables.  With `other` the first committer works on a second family: the lock
+// belongs to the store's version set, not to the family.
+func kvOverlappingCommits(rec *trace.Recorder, root string, seed int64, h int, sum *trace.Summary) {
+	w := kvwrap.NewWorld(root, rec)
+	defer w.Drop()
+	rng := rand.New(rand.NewSource(seed))
+	opt := kv.DefaultStoreOption()
+	run := &kvRun{w: w, rec: rec, path: root, opt: opt, rng: rng, famOpt: map[string]kv.FamilyOption{}}
+	rec.Reset(trace.F{"mode": "concurrent", "h": h, "scenario": "overlapping-commits"})
+	if err := run.open(); err != nil {
+		sum.Unresolved = append(sum.Unresolved, "open: "+err.Error())
+		return
+	}
+	f, err := run.store.CreateFamily("10", kv.FamilyOption{Merger: unionMerger})
+	if err != nil {
+		sum.Unresolved = append(sum.Unresolved, "family: "+err.Error())
+		return
+	}
+	fams := []kv.Family{f}
+	other := rng.Intn(3) == 0
+	if other {
+		g, err := run.store.CreateFamily("11", kv.FamilyOption{Merger: unionMerger})
+		if err != nil {
+			sum.Unresolved = append(sum.Unresolved, "family: "+err.Error())
+			return
+		}
+		fams = append(fams, g)
+	}
+	rec.Emit("Proj", trace.F{"proj": kvProj(run.store, w)})
+	for i := 0; i < 1+rng.Intn(2); i++ {
+		run.flush("10", 1+rng.Intn(3), false)
+	}
+
+	const (
+		stRunning int32 = iota
+		stParked
+		stDone
+	)
+	type committer struct {
+		name    string
+		fam     kv.Family
+		fl      kv.Flusher
+		gid     int64
+		state   atomic.Int32
+		goCh    chan struct{}
+		release chan struct{}
+	}
+	n := 3 + rng.Intn(2)
+	cs := make([]*committer, n)
+	byName := map[string]*committer{}
+	for i := range cs {
+		c := &committer{name: fmt.Sprintf("f%c", 'a'+i), fam: f, goCh: make(chan struct{}), release: make(chan struct{})}
+		if i == 0 && other {
+			c.fam = fams[1]
+		}
+		// the tables are built one thread at a time (allocation order = order of the TableAlloc events)
+		w.BindThread(c.name)
+		c.fl = run.prepareFlusher(c.fam, 1+rng.Intn(2))
+		w.BindThread("")
+		cs[i] = c
+		byName[c.name] = c
+	}
+	w.Gate = func(label string) {
+		if label != "manifest-append" {
+			return
+		}
+		if c := byName[w.Thread()]; c != nil {
+			c.state.Store(stParked)
+			<-c.release
+			c.state.Store(stRunning)
+		}
+	}
+	var wg sync.WaitGroup
+	for _, c := range cs {
+		c := c
+		wg.Add(1)
+		ready := make(chan struct{})
+		go func() {
+			defer wg.Done()
+			defer c.state.Store(stDone)
+			w.BindThread(c.name)
+			c.gid = kvwrap.GoroutineID()
+			close(ready)
+			<-c.goCh
+			run.commitPrepared(c.name, c.fam, c.fl)
+		}()
+		<-ready
+	}
+	// waitFor polls (the waits below end on an observed state, the timeout only guards the driver)
+	waitFor := func(cond func() bool) bool {
+		deadline := time.Now().Add(10 * time.Second)
+		for !cond() {
+			if time.Now().After(deadline) {
+				return false
+			}
+			time.Sleep(200 * time.Microsecond)
+		}
+		return true
+	}
+	settled := func(c *committer) bool {
+		st := c.state.Load()
+		return st == stParked || st == stDone || kvwrap.BlockedOnLock(c.gid, "storeVersionSet")
+	}
+	stuck := ""
+	// A runs into its manifest append and stays there, the lock held
+	close(cs[0].goCh)
+	if !waitFor(func() bool { return cs[0].state.Load() != stRunning }) {
+		stuck = "the first committer did not reach its manifest append"
+	}
+	// every other committer runs until it waits for the lock
+	waiting := []*committer{}
+	for _, c := range cs[1:] {
+		close(c.goCh)
+		if stuck == "" && !waitFor(func() bool { return settled(c) }) {
+			stuck = "committer " + c.name + " neither parked nor blocked"
+		}
+		waiting = append(waiting, c)
+	}
+	order := []string{cs[0].name}
+	close(cs[0].release)
+	if !waitFor(func() bool { return cs[0].state.Load() == stDone }) {
+		stuck = "the first committer did not finish"
+	}
+	for len(waiting) > 0 && stuck == "" {
+		// one of the waiting committers got the lock and reaches its manifest append; the others wait again
+		var x *committer
+		if !waitFor(func() bool {
+			for _, c := range waiting {
+				if c.state.Load() != stRunning {
+					x = c
+					return true
+				}
+			}
+			return false
+		}) {
+			stuck = "no waiting committer reached its manifest append"
+			break
+		}
+		rest := []*committer{}
+		for _, c := range waiting {
+			if c != x {
+				rest = append(rest, c)
+				if !waitFor(func() bool { return settled(c) }) {
+					stuck = "committer " + c.name + " neither parked nor blocked"
+				}
+			}
+		}
+		order = append(order, x.name)
+		if x.state.Load() == stParked {
+			close(x.release)
+		}
+		if !waitFor(func() bool { return x.state.Load() == stDone }) {
+			stuck = "committer " + x.name + " did not finish"
+		}
+		waiting = rest
+	}
+	if stuck != "" {
+		// free whatever is still parked so that no goroutine stays behind
+		w.Gate = nil
+		for _, c := range cs {
+			select {
+			case <-c.release:
+			default:
+				close(c.release)
+			}
+		}
+		wg.Wait()
+		sum.Unresolved = append(sum.Unresolved, "overlapping-commits: "+stuck)
+		run.closeStore()
+		return
+	}
+	wg.Wait()
+	w.Gate = nil
+	fam := int(f.ID())
+	// a reader that starts now sees every commit that completed
+	snap := f.GetSnapshot()
+	rec.Emit("SnapAcquire", snapFields("check", fam, snap, opt.Levels, true))
+	rec.Emit("SnapRead", snapFields("check", fam, snap, opt.Levels, false))
+	// ... and the cleanup removes no committed table
+	for _, g := range fams {
+		kv.VerifDeleteObsoleteFiles(g)
+	}
+	rec.Emit("SnapRead", snapFields("check", fam, snap, opt.Levels, false))
+	snap.Close()
+	rec.Emit("SnapClose", trace.F{"id": "check"})
+	rec.Emit("Proj", trace.F{"proj": kvProj(run.store, w)})
+	if rng.Intn(2) == 0 {
+		// the compaction of the committed tables keeps the content
+		run.compact("10")
+		kv.VerifDeleteObsoleteFiles(f)
+		snap = f.GetSnapshot()
+		rec.Emit("SnapAcquire", snapFields("after", fam, snap, opt.Levels, true))
+		rec.Emit("SnapRead", snapFields("after", fam, snap, opt.Levels, false))
+		snap.Close()
+		rec.Emit("SnapClose", trace.F{"id": "after"})
+		rec.Emit("Proj", trace.F{"proj": kvProj(run.store, w)})
+	}
+	run.closeStore()
+	if len(sum.Samples) < 3 {
+		sum.Samples = append(sum.Samples, map[string]any{"overlapping-commits": order})
+	}
+	sum.Extra["schedules"] = sum.Extra["schedules"].(int) + 1
+	sum.Extra["overlapping"] = sum.Extra["overlapping"].(int) + 1
+}
+
 func kvConcMain(args []string) int {
 	fs := flag.NewFlagSet("kvc", flag.ExitOnError)
 	out := fs.String("out", "kvc.ndjson", "trace output")
@@ -447,7 +722,7 @@ func kvConcMain(args []string) int {
 		return 2
 	}
 	rng := rand.New(rand.NewSource(*seed))
-	sum := &trace.Summary{Module: "KVStore", Extra: map[string]any{"schedules": 0, "steps": 0}}
+	sum := &trace.Summary{Module: "KVStore", Extra: map[string]any{"schedules": 0, "steps": 0, "overlapping": 0}}
 	for h := 0; h < *nh; h++ {
 		root := filepath.Join(*scratch, fmt.Sprintf("c%d", h), "store")
 		_ = os.MkdirAll(filepath.Dir(root), 0o755)
@@ -457,6 +732,8 @@ func kvConcMain(args []string) int {
 			kvReaderCache(rec, root, rng.Int63(), h, sum)
 		} else if h%10 == 2 {
 			kvDoubleClose(rec, root, rng.Int63(), h, sum)
+		} else if h%10 == 7 {
+			kvOverlappingCommits(rec, root, rng.Int63(), h, sum)
 		} else {
 			kvConcHistory(rec, root, rng.Int63(), h, sum)
 		}
